@@ -29,6 +29,7 @@ HARNESS_MODULES = {
     'C11': ['c11_prims'],
     'C12': ['c12_vectors'],
     'C13': ['c13_purity'],
+    'C14': ['c14_serial'],
     'C15': ['c15_ja3'],
     'C16': ['c07_ssh:shards_c16'],
     'C17': ['c17_version'],
